@@ -410,6 +410,54 @@ func childMerge(c *run.Ctx, cfg childCfg) {
 				if !reflect.DeepEqual(lv, levelsOf(tree.BFS(tn))) || !reflect.DeepEqual(fg.Names, tree.Names) {
 					undecide("replica of getTree and the real MergeStackTraces returned different flame graphs for the same statement", tn)
 				}
+				// the diff of the selection with itself: both sides weigh Σ inputs, every bar has the same width on both
+				// sides, and each level's bars add up to no more than the level above
+				if dl, lt, rt, err := feed.diffSelf(w); err != nil {
+					undecide("RenderDiff of a selection with itself failed", clip(err.Error(), 200))
+				} else {
+					c.Floor("diffs of a selection with itself checked", 0, 1)
+					bad := ""
+					if lt != got.rootTotal() || rt != got.rootTotal() {
+						bad = fmt.Sprintf("leftTicks %d, rightTicks %d, Σ root totals of the inputs %d", lt, rt, got.rootTotal())
+					}
+					prevSum := int64(-1)
+					for li, lv := range dl {
+						if len(lv)%7 != 0 {
+							bad = fmt.Sprintf("level %d has %d values (not a multiple of 7)", li, len(lv))
+							break
+						}
+						var sum int64
+						for j := 0; j+6 < len(lv) && bad == ""; j += 7 {
+							if lv[j+1] != lv[j+4] || lv[j+2] != lv[j+5] {
+								bad = fmt.Sprintf("level %d bar %d: left total/self %d/%d, right total/self %d/%d for one and the same selection", li, j/7, lv[j+1], lv[j+2], lv[j+4], lv[j+5])
+							}
+							sum += lv[j+1]
+						}
+						if bad == "" && prevSum >= 0 && sum > prevSum {
+							bad = fmt.Sprintf("the bars of level %d add up to %d, those of level %d to %d", li, sum, li-1, prevSum)
+						}
+						if bad == "" && li == 1 && sum+0 > got.rootTotal() {
+							bad = fmt.Sprintf("the bars of level 1 add up to %d, Σ inputs %d", sum, got.rootTotal())
+						}
+						if bad != "" {
+							break
+						}
+						prevSum = sum
+					}
+					if bad == "" && len(dl) > 1 && len(wantPaths) > 0 {
+						// level 1 holds the roots: their widths add up to Σ of the inputs' root totals
+						var s1 int64
+						for j := 0; j+6 < len(dl[1]); j += 7 {
+							s1 += dl[1][j+1]
+						}
+						if s1 != got.rootTotal() {
+							bad = fmt.Sprintf("the root bars add up to %d, Σ root totals of the inputs %d", s1, got.rootTotal())
+						}
+					}
+					if bad != "" {
+						rp.violation("diff/self-diff-inconsistent/service", fmt.Sprintf("type %s (ProfService.RenderDiff of a selection with itself): %s", tn, bad), map[string]any{"sample_type": tn, "levels_head": headLevels(dl, 4)})
+					}
+				}
 				// the same question through the controller with the request's node limit set: whatever a reader leaves out
 				// of the drawing, the weight stays (level 0 = Σ inputs) and every bar lies inside its parent
 				for _, mn := range []int64{int64(max(bars/2, 1)), 3} {
